@@ -1,1 +1,90 @@
-pub fn placeholder() {}
+//! simcore — shared pieces of the deterministic simulators (see /verif/DESIGN.md §2).
+//!
+//! * `rng`       one-integer PRNG (SplitMix64); every choice of a run is drawn from it
+//! * `interpose` libc seams: `getrandom` (hash keys) and `clock_gettime` (wall/monotonic clock)
+//! * `par`       worker processes: run i of a batch depends only on (root seed, i), never on the worker count
+//! * `report`    evidence files, replay files, known-findings matching, the exit-code contract
+
+pub mod interpose;
+pub mod lsp;
+pub mod par;
+pub mod report;
+pub mod rng;
+
+pub use rng::{mix, Rng};
+
+/// Root of everything the framework writes.
+pub const VERIF_ROOT: &str = "/verif";
+
+/// Budget tier.
+#[derive(Clone, Copy, PartialEq, Eq, Debug)]
+pub enum Tier {
+    Quick,
+    Thorough,
+}
+
+impl Tier {
+    pub fn as_str(self) -> &'static str {
+        match self {
+            Tier::Quick => "quick",
+            Tier::Thorough => "thorough",
+        }
+    }
+    pub fn parse(s: &str) -> Option<Tier> {
+        match s {
+            "quick" => Some(Tier::Quick),
+            "thorough" => Some(Tier::Thorough),
+            _ => None,
+        }
+    }
+}
+
+/// Harness error: never reported as a violation (exit 2).
+pub fn harness_error(msg: &str) -> ! {
+    eprintln!("HARNESS-ERROR: {msg}");
+    std::process::exit(2);
+}
+
+/// Simple argv helper: `--key value` lookup.
+pub fn arg_value(args: &[String], key: &str) -> Option<String> {
+    args.iter().position(|a| a == key).and_then(|i| args.get(i + 1).cloned())
+}
+
+pub fn arg_flag(args: &[String], key: &str) -> bool {
+    args.iter().any(|a| a == key)
+}
+
+/// Root seed: `--seed`, else `VERIF_SEED`, else 1.
+pub fn root_seed(args: &[String]) -> u64 {
+    arg_value(args, "--seed")
+        .or_else(|| std::env::var("VERIF_SEED").ok())
+        .and_then(|s| s.trim().parse::<u64>().ok())
+        .unwrap_or(1)
+}
+
+/// Tier: `--tier`, else `VERIF_TIER`, else quick.
+pub fn tier(args: &[String]) -> Tier {
+    arg_value(args, "--tier")
+        .or_else(|| std::env::var("VERIF_TIER").ok())
+        .and_then(|s| Tier::parse(s.trim()))
+        .unwrap_or(Tier::Quick)
+}
+
+/// 64-bit FNV-1a, used for fingerprints of interleavings / workloads (never for decisions).
+pub fn fnv(data: &[u8]) -> u64 {
+    let mut h: u64 = 0xcbf29ce484222325;
+    for b in data {
+        h ^= *b as u64;
+        h = h.wrapping_mul(0x100000001b3);
+    }
+    h
+}
+
+pub fn fnv_add(h: u64, data: &[u8]) -> u64 {
+    let mut h = h;
+    for b in data {
+        h ^= *b as u64;
+        h = h.wrapping_mul(0x100000001b3);
+    }
+    h
+}
